@@ -106,6 +106,18 @@ func vT16Serve(srv *Server, lid int) {
 func vT16Conn(srv *Server, r int) {
 	var input []byte
 	stall := false
+	if r == -9 {
+		// scenario 10: a client that has asked for SSL, has been refused ('N') and
+		// goes silent before its start-up packet: the connection is still in the
+		// handshake, nobody's command is running, Close must return.
+		conn := vNewConn(vSSLRequest)
+		conn.stall = true
+		func() {
+			defer func() { recover() }() //nolint
+			srv.serve(context.Background(), conn) //nolint
+		}()
+		return
+	}
 	if r == -8 {
 		// scenario 9: a whole connection through serve on a server that asks for a
 		// password; the client has sent its start-up packet, has been asked for the
